@@ -103,7 +103,7 @@ def concurrent_check(res, prop, tier, harness_src, model, expected_rules, quick_
         pass
     all_stats = [stats]
     # failing-input search when something no longer checks
-    need_search = bool(broken) or (val is not None and val['mismatches'])
+    need_search = bool(broken) or (val is not None and val['mismatches']) or bool(getattr(res, 'support_changed', None))
     if need_search and not violations and search_args:
         for sa in search_args:
             st2, _, v2 = run_harness(binary, list(sa) + ['--seed', str(C.seed())])
